@@ -78,3 +78,22 @@ Definition ordered (l : list creq) : bool :=
   | ROpen :: l' => ordered_auth l'
   | _ => false
   end.
+
+(* ---- the inbound count across a history of connections (C09) ---- *)
+Open Scope N_scope.
+Definition no_bind (w : list out) : Prop := forall x i, ~ In (RBind x i) (reqs w).
+Definition has_enable (w : list out) : Prop := exists b, In (REnable b) (reqs w).
+Fixpoint hist_ok (p : persist) (cs : list conn) (rs : list (list out * result * persist)) : Prop :=
+  match cs, rs with
+  | [], [] => True
+  | c :: cs', (w, r, p2) :: rs' =>
+      (* every <resume/> of this connection carries the id and the count held *)
+      (forall prev h, In (RResume prev h) (reqs w) -> prev = p_sm_id p /\ h = p_inbound p) /\
+      (* the session was resumed: the count held afterwards is the old one plus what was received on it *)
+      (r = Ok -> no_bind w -> p_inbound p2 = p_inbound p + k_traffic c /\ p_sm_id p2 = p_sm_id p) /\
+      (* stream management newly enabled: the count held afterwards is what was received on the new session *)
+      (r = Ok -> has_enable w -> p_inbound p2 = k_traffic c) /\
+      hist_ok p2 cs' rs'
+  | _, _ => False
+  end.
+
